@@ -93,7 +93,9 @@ def morphism(ctx, g):
                why if ok else "a pair (d, e) from the work queue is extended into the other symbol without comparing the degrees of d in self with those of e in other (%s)" % why, b.span_of(bi))
     # T2: somewhere degrees of `other` are read at all
     reads_other = False
-    for d in [b.name] + ctx.facts.closures.get(b.name, []):
+    helpers = [d for d in ctx.facts.reachable(b.name, fanout=False) if d == b.name or d.startswith(b.name + "::{closure") or
+               (d.startswith("dsets::DSet::") and d.split("::{closure")[0] not in ("dsets::DSet::m", "dsets::DSet::r", "dsets::DSet::op", "dsets::DSet::walk", "dsets::DSet::degrees_match"))]
+    for d in helpers:
         for bi, t in ctx.facts.bodies[d].calls():
             cal = t["callee"]
             if cal.get("def") in DEG_FNS and (cal.get("args") or [""])[0].startswith("T/"):
